@@ -267,7 +267,7 @@ var c18Xdev = evid.Part[C18XdevCase]{
 	Gen: func(t *rapid.T) C18XdevCase {
 		sizes := []int{1, 17, 300, 5000, 70000, 1<<20 - 40, 3 << 20}
 		return C18XdevCase{
-			Sharding: rapid.SampledFrom([]string{"", "r12", "r122", "r133", "none"}).Draw(t, "sharding"),
+			Sharding: rapid.SampledFrom([]string{"", "r12", "r122", "r133", "none", "deep"}).Draw(t, "sharding"),
 			Link:     rapid.SampledFrom([]string{"staging", "shard"}).Draw(t, "link"),
 			Seed:     rapid.Byte().Draw(t, "seed"),
 			SizeA:    rapid.SampledFrom(sizes).Draw(t, "a"), SizeB: rapid.SampledFrom(sizes).Draw(t, "b"), SizeC: rapid.SampledFrom(sizes).Draw(t, "c"),
